@@ -71,9 +71,13 @@ def generate(rng, tier, k):
     nacc = rng.choice((1, 1, 2, 3))
     accs = []
     for a in range(nacc):
-        regime = rng.choice(("exact", "gauss"))
-        rec = {"regime": regime, "n": rng.randrange(2, 40), "d": d, "seed": rng.randrange(1 << 30)}
-        if regime == "exact":
+        regime = rng.choice(("exact", "gauss", "gauss", "const"))
+        rec = {"regime": regime, "n": rng.choice((rng.randrange(2, 40), rng.randrange(2, 40), rng.randrange(40, 200))),
+               "d": d, "seed": rng.randrange(1 << 30)}
+        if regime == "const":
+            rec["values"] = [rng.choice((0.3, -11.512925464970229, -13.7, 0.1, 1e-3, 7.0)) for _ in range(d)]
+            rec["free_cols"] = [j for j in range(d) if rng.random() < 0.4]
+        elif regime == "exact":
             rec["spread"] = rng.choice((512, 4096))
             rec["offsets"] = [rng.choice((0, -20000, -3000, 15000)) for _ in range(d)]
         else:
@@ -305,6 +309,8 @@ def _run(scn, d, base, res, tr):
                         res.probe("overwrite_%s_existing" % str(overwrite).lower())
             if datas[a][: nrows[a]].sum(axis=0).min() < 0:
                 res.probe("negative_sum_saved")
+            if scn["accs"][a]["data"]["regime"] == "const":
+                res.probe("constant_coefficient_saved")
             if saves_on.get((p, a)) and acc_since_save.get(a):
                 res.probe("save_accumulate_save_load")
             try:
